@@ -407,10 +407,14 @@ func execute(s *scen, ch coop.Chooser) (res *coop.Result, clause, msg string) {
 			if r := cur[e.w]; r != nil && !inExit[e.w] {
 				r.lastLoad, r.loaded = e.a, true
 			}
-		case "store":
-			return res, "state-written-without-cas", fmt.Sprintf("worker %d stored state %d directly", e.w, e.a)
-		case "cas":
-			if e.b == 0 {
+		case "store", "cas":
+			// a transition is a successful compare-and-swap of the state word or (an implementation that serialises
+			// its transitions by a lock) a store of a different state; both are judged alike: legal edge, performed
+			// once, reported once with the state it replaced
+			if e.kind == "cas" && e.b == 0 {
+				continue
+			}
+			if e.kind == "store" && int(e.a) == state {
 				continue
 			}
 			to := int(e.a)
@@ -568,7 +572,7 @@ func main() {
 	sentinel.GlobalSlotChain().AddRuleCheckSlot(laterSlot{})
 	run = vk.Start("C12", "coop")
 	defer run.Finish()
-	run.Rule("schedule = (family trip / trip2 / timeout / probe-ok / probe-fail / reopen / probe-blocked (the probe is blocked by a later slot while a straggler completes), retry timeout, probe number, 2-3 workers performing Entry, Entry+Exit(ok/err), completion of a pre-existing entry, clock ticks of 1ms, 1/2, 1-, 1, 1.5 retry timeouts; choice sequence at every atomic access of circuit_breaker.go) under random walk, PCT d<=3 and bounded DFS. Oracle on the recorded total order: state changes only by legal CAS, listener multiset == performed transitions (same caller, same previous state, program order), Open->HalfOpen never earlier than open instant + retry timeout, every admission justified by the state the caller read (Closed, own Open->HalfOpen CAS, or HalfOpen with a probe number), no rejection after reading Closed; distinct = distinct (scenario, interleaving).")
+	run.Rule("schedule = (family trip / trip2 / timeout / probe-ok / probe-fail / reopen / probe-blocked (the probe is blocked by a later slot while a straggler completes), retry timeout, probe number, 2-3 workers performing Entry, Entry+Exit(ok/err), completion of a pre-existing entry, clock ticks of 1ms, 1/2, 1-, 1, 1.5 retry timeouts; choice sequence at every atomic access of circuit_breaker.go) under random walk, PCT d<=3 and bounded DFS. Oracle on the recorded total order: the state word changes only along legal edges (by compare-and-swap or by a store), listener multiset == performed transitions (same caller, same previous state, program order), Open->HalfOpen never earlier than open instant + retry timeout, every admission justified by the state the caller read (Closed, own Open->HalfOpen CAS, or HalfOpen with a probe number), no rejection after reading Closed; distinct = distinct (scenario, interleaving).")
 	run.Assume("one breaker per resource in this engine (several breakers per resource are covered sequentially by C03)", "Go atomics sequentially consistent; int32 atomics in circuit_breaker.go are the state word")
 	{ // observability calibration: the breaker's state word must be visible through the atomic shim
 		loads := 0
